@@ -310,6 +310,8 @@ func run(t *Node, m Mode) (c Case) {
 			return nil
 		})
 		if err != nil {
+			// ForEach STOPS at the first error: the iterator still stands on the element that failed
+			c.Post = append(c.Post, [2]int{2, it.Value()})
 			if ce, ok := err.(codeErr); ok {
 				v := int(ce)
 				c.Err = &v
